@@ -284,8 +284,11 @@ def report_violation(prop, signature, ent, workdir, do_min=True):
 
 def validate_replay(prop, path, signature):
     env = dict(os.environ, PYTHONHASHSEED="0")
-    r = subprocess.run([PY, os.path.join(VERIF, "simloky", "_check_main.py"), prop.id, "--replay", path],
-                       env=env, cwd=VERIF, capture_output=True, text=True, timeout=300)
+    try:
+        r = subprocess.run([PY, os.path.join(VERIF, "simloky", "_check_main.py"), prop.id, "--replay", path],
+                           env=env, cwd=VERIF, capture_output=True, text=True, timeout=300)
+    except subprocess.TimeoutExpired:
+        return False
     return r.returncode == 1 and ("VIOLATION property=%s" % prop.id) in r.stdout
 
 
